@@ -230,7 +230,7 @@ def run(ctx):
     ctx.rule = ("one evaluation = one solver call (lattice, convention, target, guess) judged against the parity contract and replayed "
                 "through the model with its own recorded paths, or one make_amorphous/make_honeycomb call; non-trivial = at least two "
                 "plaquettes to change; distinct by (lattice, convention, target, guess)")
-    rep0 = translate.regenerate_all()
+    rep0 = core.guarded_translate(ctx, translate.regenerate_all, "T-int/T-const", dict(kernels=[], tables=[], changed={}))
     ctx.translated = [k for k in rep0["kernels"] if k["kernel"] == "ground_state_ansatz"] + \
                      [t for t in rep0.get("tables", []) if isinstance(t, dict) and t.get("table") == "sign_real"]
     ctx.run_audit()
